@@ -29,7 +29,12 @@ def run(ctx):
               "electron_radius": dec.to_dec(c["electron_radius"]), "avogadro": dec.to_dec(c["avogadro_number"]),
               "consts": {"plancks_constant": dec.to_dec(c["plancks_constant"]), "speed_of_light": dec.to_dec(c["speed_of_light"])}}
     with_table = [z for z in sorted(eb) if z >= 1 and read_nff(eb[z][1]) is not None]
-    chosen = with_table if not quick else sorted(set(rng.sample(with_table, 12)) | {14})       # Si: the one table with unsorted rows
+    def first_tabulated(z):
+        return min(float(r[0]) for r in read_nff(eb[z][1]) if r[1] != "-9999.")
+    # most tables flag f1 as missing below 29.3 eV; a few (decided here from the raw rows) have values from ~19 eV on
+    early = [z for z in with_table if first_tabulated(z) < 29.0]
+    chosen = with_table if not quick else sorted(set(rng.sample(with_table, 12)) | {14} | set(rng.sample(early, min(2, len(early)))))
+    # (Si: the one table with unsorted rows)
     without = [z for z in sorted(eb) if z >= 1 and z not in with_table]
     # ---- interpolation events per element
     items, rows_of = [], {}
@@ -43,6 +48,9 @@ def run(ctx):
         Es = [float(r[0]) / 1000.0 for r in rows]
         n = len(Es)
         idx = list(range(n)) if not quick else sorted(rng.sample(range(n), 25))
+        if quick:       # always: the rows around every switch between flagged and tabulated f1
+            sw = [i for i in range(n - 1) if (rows[i][1] == "-9999.") != (rows[i + 1][1] == "-9999.")]
+            idx = sorted(set(idx) | set(k for i in sw for k in range(max(0, i - 3), min(n, i + 6))))
         pts = []
         for i in idx:
             pts.append(Es[i])                                   # node
